@@ -104,9 +104,9 @@ EQUIV = [("width", ["-w", "55"], 55), ("semantic", ["-s"], True), ("cleanups", [
          ("list_spacing", ["--list-spacing", "loose"], "loose"), ("list_spacing", ["--list-spacing", "preserve"], "preserve")]
 
 
-def run_cli(argv, cwd):
+def run_cli(argv, cwd, stdin_text=None):
     import flowmark.cli as cli
-    with in_dir(cwd), captured() as (out, err):
+    with in_dir(cwd), captured(stdin_text) as (out, err):
         rc = cli.main(argv)
     return rc, out.getvalue(), err.getvalue()
 
@@ -129,6 +129,13 @@ def effect_same_as_flag(violations, kinds):
                 rc, out, err = run_cli((argv if how == "flag" else []) + ["doc.md"], w)
                 outs[how] = (rc, out)
                 n += 1
+                # the same document through standard input (the config of the working directory applies to it as well)
+                rc2, out2, err2 = run_cli((argv if how == "flag" else []) + ["-"], w, stdin_text=SENSITIVE_DOC)
+                n += 1
+                if (rc2, out2) != (rc, out):
+                    violations.append({"clause": "config_has_effect_of_flag", "input": {"setting": setting, "value": val, "kind": kind, "how": how,
+                                                                                      "route": "stdin ('-') vs file argument"},
+                                       "got": out2[:300], "want": out[:300]})
             if outs["flag"] != outs["config"] or outs["flag"][0] != 0:
                 violations.append({"clause": "config_has_effect_of_flag", "input": {"setting": setting, "value": val, "kind": kind, "flag": argv},
                                    "got": outs["config"][1][:300], "want": outs["flag"][1][:300]})
